@@ -169,20 +169,21 @@ fn apply<T: Elem, C: ArrayLength + PartialEq>(p: &mut Pair<T, C>, o: &Value) -> 
         }
         "iter_ends" => {
             // ONE iterator driven from both ends
-            let pat: Vec<bool> = o["pat"].as_array().unwrap().iter().map(|x| x.as_str() == Some("f")).collect();
+            // requests <end, k>: k = 0 -> next / next_back, k > 0 -> nth(k) / nth_back(k)
+            let pat: Vec<(bool, usize)> = o["pat"].as_array().unwrap().iter().map(|x| (x[0].as_str() == Some("f"), x[1].as_u64().unwrap() as usize)).collect();
             let mut y: Vec<Vec<i64>> = Vec::new();
             let n;
             if o["mutable"].as_bool() == Some(true) {
                 let mut it = m!().iter_mut();
-                for &f in &pat {
-                    let r = if f { it.next() } else { it.next_back() };
+                for &(f, k) in &pat {
+                    let r = match (f, k) { (true, 0) => it.next(), (false, 0) => it.next_back(), (true, k) => it.nth(k), (false, k) => it.nth_back(k) };
                     y.push(r.map(|r| r.iter().map(|x| x.to_i()).collect()).unwrap_or_default());
                 }
                 n = it.len();
             } else {
                 let mut it = m!().iter();
-                for &f in &pat {
-                    let r = if f { it.next() } else { it.next_back() };
+                for &(f, k) in &pat {
+                    let r = match (f, k) { (true, 0) => it.next(), (false, 0) => it.next_back(), (true, k) => it.nth(k), (false, k) => it.nth_back(k) };
                     y.push(r.map(|r| r.iter().map(|x| x.to_i()).collect()).unwrap_or_default());
                 }
                 n = it.len();
@@ -232,7 +233,7 @@ fn random_op<C: ArrayLength + PartialEq>(rng: &mut impl Rng, na: usize, nb: usiz
         let k = rng.gen_range(0..21);
         return match k {
             0 => json!({"op":"new","tgt":tgt,"r":rrows(rng)}),
-            1 => { let r = rrows(rng); json!({"op":"with_capacity","tgt":tgt,"r":r,"cap":r + rng.gen_range(0..5)}) }
+            1 => { let r = rrows(rng); json!({"op":"with_capacity","tgt":tgt,"r":r,"cap": if rng.gen_bool(0.4) { rng.gen_range(0..=r) } else { r + rng.gen_range(0..5) }}) }
             2 | 3 => json!({"op":"resize","tgt":tgt,"r":rrows(rng)}),
             4 => json!({"op":"reserve","tgt":tgt,"n":rng.gen_range(0..80)}),
             5 | 6 | 7 => {
@@ -264,7 +265,7 @@ fn random_op<C: ArrayLength + PartialEq>(rng: &mut impl Rng, na: usize, nb: usiz
             _ => {
                 let len = rng.gen_range(0..n + 4);
                 let pf = [0.5, 0.15, 0.85][rng.gen_range(0..3)];
-                let pat: Vec<&str> = (0..len).map(|_| if rng.gen_bool(pf) { "f" } else { "b" }).collect();
+                let pat: Vec<Value> = (0..len).map(|_| json!([if rng.gen_bool(pf) { "f" } else { "b" }, if rng.gen_bool(0.3) { rng.gen_range(1..3) } else { 0 }])).collect();
                 json!({"op":"iter_ends","tgt":tgt,"pat":pat,"mutable":rng.gen_bool(0.4)})
             }
         };
